@@ -165,7 +165,11 @@ def cfg_to_spec(G):
     for r in G.R:
         k = ids.setdefault(id(r.alternative), len(ids))
         R.append([str(r.variable), k, [_sym(x) for x in r.alternative.symbols]])
-    return {'V': sorted(map(str, G.V)), 'Sigma': sorted(map(str, G.Sigma)), 'R': R, 'S': str(G.S)}
+    out = {'V': sorted(map(str, G.V)), 'Sigma': sorted(map(str, G.Sigma)), 'R': R, 'S': str(G.S)}
+    if not all(isinstance(x, str) for x in list(G.V) + list(G.Sigma) + [G.S] + [r.variable for r in G.R] +
+               [y for r in G.R for y in r.alternative.symbols]):
+        out['non_string_symbol'] = True
+    return out
 
 
 def canon_cfg_spec(s, keep_order=False, keep_alias=False):
